@@ -1,7 +1,7 @@
 //! C05 — statement and context binding: a proof verifies only for its own statement.
 use crate::choices::Choices;
 use crate::curves::{Curve, CurveTag};
-use crate::drive::{pc_gens, run_batch, run_prover, run_verifier, BatchMember, ProveOpts, VerifyOpts};
+use crate::drive::{prog_pc, run_batch, run_prover, run_verifier, BatchMember, ProveOpts, VerifyOpts};
 use crate::program::{gen_program, Cap, GenCfg, Op, Program, Sc, Var, TLABELS, ULABELS};
 use crate::props::c02::{constrain_sites, list_mut, lists, ListRef};
 use crate::props::c08::rand_point;
@@ -57,7 +57,7 @@ fn deviate<G: CurveTag>(ch: &mut Choices, prog: &Program, commitments: &[G]) -> 
     let mut p = prog.clone();
     let mut c = commitments.to_vec();
     let m = c.len();
-    let pc = pc_gens::<G>();
+    let pc = prog_pc::<G>(prog);
     let na = |kind: &str| Deviation { prog: prog.clone(), commitments: commitments.to_vec(), pc: None, kind: kind.into(), expect: Expect::NotApplicable };
     let kind = ch.weighted(&[12, 9, 7, 7, 16, 6, 9, 12, 7, 7, 8]);
     match kind {
@@ -322,7 +322,7 @@ fn case<G: CurveTag>(bytes: &[u8], col: &mut Collector) -> Result<(), Failure> {
     let cut = bytes.len().min(40);
     let mut chi = Choices::new(&bytes[..cut]);
     let mut ch = Choices::new(&bytes[cut..]);
-    let cfg = GenCfg { max_ops1: 12, max_closures: 2, max_ops2: 7, max_commits: 4, big_gates: 0 , max_terms: 4};
+    let cfg = GenCfg { max_ops1: 12, max_closures: 2, max_ops2: 7, max_commits: 4, big_gates: 0 , max_terms: 4, wide: false};
     let mut prog = gen_program(&mut ch, G::CURVE, &cfg);
     prog.cap_v = Cap::Big;
     let p = run_prover::<G>(&prog, &ProveOpts::default());
